@@ -108,10 +108,22 @@ pub fn build(
         return Ok(None);
     };
 
-    // TODO: verify that `ty` actually makes sense for an enum
     let Some(size) = ty.size(&semantic.type_registry) else {
         return Ok(None);
     };
+
+    // Only the integer types can be the representation of a Rust enum
+    let is_integer = matches!(&ty, Type::Raw(path) if path.len() == 1 && path.last().is_some_and(|s| {
+        matches!(
+            s.as_str(),
+            "u8" | "u16" | "u32" | "u64" | "u128" | "i8" | "i16" | "i32" | "i64" | "i128"
+        )
+    }));
+    if !is_integer {
+        anyhow::bail!(
+            "enum `{resolvee_path}` has the base type `{ty}`, which is not an integer type"
+        );
+    }
 
     if definition.statements.is_empty() {
         anyhow::bail!("enum `{resolvee_path}` has no variants");
